@@ -12,7 +12,10 @@ DUTs (all real luna objects, elaborated per case):
           and, with low_speed_only, at low speed) with one test endpoint whose only activity is strobing
           `interface.timer.start`.  It observes the device's shared timer (`interface.timer.*`), the token detector's
           `tokenizer.ready_for_response` and `rx_ready_for_response`: decides that device.py hands the clock / fs_only
-          parameters and the speed to all timers.
+          parameters and the speed to all timers.  Two of the five device configurations go through the real
+          constructor branch for a ULPI-shaped bus (UTMITranslator in front, always_fs / data_clock as __init__ sets
+          them; bus idle, timers exercised by the test endpoint and by their start at reset); the other three use the
+          UTMI branch, with the 60 MHz attributes set from the harness so that packets can be injected at UTMI level.
 Workload: start strobes at adversarial distances (restart one cycle before / exactly at / after each strobe, back to
   back, held for several cycles, one cycle apart, simultaneous on two interfaces), speed changes between (and,
   unjudged, inside) measurements, packets with every rx byte-gap profile, lead-in and trailing cycles, damaged /
@@ -20,11 +23,17 @@ Workload: start strobes at adversarial distances (restart one cycle before / exa
 Oracle: per-cycle reference model written from USB 2.0 7.1.18 / the statement.  cnt(t) = number of clock edges since
   the edge that took the most recent start (reset = start at cycle 0); a strobe is expected in exactly the cycles in
   which cnt == N(speed), N from the table below (cycles = bit times * clock / bit rate):
-      60 MHz: HS (1, 24, 92)   FS (10, 32|33, 80)   LS (80, 260, 640)        12 MHz: FS (2, 6|7, 16)
-  (6.5 bit times is not an integer number of cycles: both roundings are accepted.)  The model is evaluated under the
-  hypotheses "outputs are combinational" (L=0) and "outputs are registered once" (L=1); the implementation must be
-  consistent with ONE hypothesis (same L, same rounding) for every strobe, speed and measurement of the case: so
-  each strobe appears exactly once per start, never if restarted earlier, at exactly N+L.
+      60 MHz: HS (1, 24, 92)   FS (10, 32, 80)   LS (80, 260, 640)        12 MHz: FS (2, 6|7, 16)
+  Rounding rule for the 6.5-bit-time deadline: a maximum must not be exceeded, so the strobe belongs to the last clock
+  edge not later than 6.5 bit times = floor(6.5 * cycles per bit) (32 at 60 MHz, the figure ULPI 1.1 gives; 33 is a
+  violation).  Only at 12 MHz, where one bit time is one clock period and the half bit cannot be resolved, 6 and 7 are
+  both accepted (the statement does not decide; 7 -> 6 would move to the safe side of the limit).
+  Latency rule: where the start strobe itself is observed (stand-alone timer, in-device timer on the ULPI path) the
+  offset is exactly N: the strobe is sampled high at the (N+1)-th edge after the edge that sampled the start, nothing
+  else is accepted ("all strobes one cycle late" is a violation).  Where only the end of a packet is observed (token
+  detector, data receiver, packet-started in-device timers) the statement does not fix the latency from rx_active
+  falling to the internal start: hypotheses L=0 / L=1 are evaluated and ONE must explain every strobe of the case.
+  In all cases each strobe appears exactly once per start and never if restarted earlier.
 Not judged: speeds other than FS in fs_only configurations (the statement excludes them); speed value 3; strobes of
   a measurement during which the speed input changed; whether damaged / foreign / SOF packets start a timer (after
   such a packet nothing is judged until the next known start); the receiver's ready strobe outside the window that
@@ -37,6 +46,9 @@ Finding (original tree; fixed in /repo by commit 13804e4): at speed LOW the time
   second judge whose table differs only in "LS row := HS row" runs beside the specification judge; the mechanism
   `<where>ls_follows_hs_table` is reported only when the specification judge is contradicted at speed LOW while the second
   judge still explains every judged cycle; anything else keeps `<where><strobe>_{spurious,missing}_<speed>`.
+Long idle periods (1-2x the next power of two above the longest timeout) are generated in every configuration so that a
+  counter which wraps instead of saturating repeats its strobes inside a judged window.
+Not covered: the raw-I/O (GatewarePHY) constructor branch (needs a 48 MHz bit-level line model), in-device high speed.
 Deviation from DESIGN section 7: latency L is required to be constant per case (cases are independent processes), not
   per run.  High-speed in-device operation (needs the 300 k-cycle chirp handshake) is covered at block level only.
 """
@@ -53,6 +65,8 @@ REQUIRED_BINS = [
     "timer_60_hs", "timer_60_fs", "timer_60_ls", "timer_60fs_fs", "timer_12fs_fs",
     "restart_just_before_allowed", "restart_at_allowed", "restart_just_before_timeout", "restart_at_timeout",
     "restart_just_before_rxto", "restart_at_rxto", "full_measurement", "start_adjacent_cycles", "start_one_cycle_apart",
+    "wait_past_counter_range_60", "wait_past_counter_range_60fs", "wait_past_counter_range_12fs",
+    "device_ulpi_fs", "device_ulpi_ls",
     "start_held", "simultaneous_starts", "multi_interface", "speed_change_between", "speed_change_same_cycle_as_start",
     "tokdet_60_hs", "tokdet_60_fs", "tokdet_60_ls", "tokdet_60fs_fs", "tokdet_12fs_fs", "tokdet_noise_before_good",
     "rxdata_60_hs", "rxdata_60_fs", "rxdata_60_ls", "rxdata_60fs_fs", "rxdata_12fs_fs", "rxdata_restart_in_window",
@@ -64,8 +78,9 @@ REQUIRED_EVENTS = ["cycles_judged", "tx_allowed_seen", "tx_timeout_seen", "rx_ti
                    "device_timer_strobes_seen"]
 ASSUMPTIONS = [
     "a strobe 'at N' means: sampled high at the (N+1)-th clock edge after the edge that sampled the start (the counter is "
-    "0 in the first cycle after that edge); one additional output register (L=1) is tolerated if applied uniformly",
-    "6.5 bit times is accepted as 32 or 33 cycles at 60 MHz and 6 or 7 cycles at 12 MHz",
+    "0 in the first cycle after that edge); one additional register (L=1, uniform) is tolerated only for outputs measured "
+    "from the end of a packet, never where the start strobe itself is observed",
+    "6.5 bit times = floor(6.5 * cycles per bit) cycles (32 at 60 MHz); at 12 MHz, where the clock cannot resolve half a bit, 6 or 7",
     "fs_only configurations are judged at full speed only; mid-measurement speed changes are generated but not judged",
     "the end of a packet is the first cycle in which rx_active is sampled low",
 ]
@@ -81,9 +96,12 @@ STROBES = ("tx_allowed", "tx_timeout", "rx_timeout")
 
 def spec_table(clock, fs_only):
     def fsls(bit):
+        # rounding rule for the 6.5-bit-time deadline: a maximum must not be exceeded, so the strobe belongs to the last
+        # clock edge that is not later than 6.5 bit times = floor(6.5 * cycles_per_bit): 32 at 60 MHz FS (also the figure
+        # ULPI 1.1 gives), 260 at LS.  Only when a bit time is a single clock period (12 MHz) the half bit cannot be
+        # resolved by the clock at all: there 6 and the next edge 7 are both accepted (genuinely undecided).
         lo = int(6.5 * bit)
-        alts = (lo,) if lo == 6.5 * bit else (lo, lo + 1)
-        # documented choice first: 32 at 60 MHz, 7 at 12 MHz -> only the order of hypotheses, both are accepted
+        alts = (lo, lo + 1) if bit == 1 else (lo,)
         return (2 * bit, alts, 16 * bit)
     t = {FS: fsls(int(round(clock / 12e6)))}
     if not fs_only:
@@ -96,12 +114,13 @@ def spec_table(clock, fs_only):
 class Judge:
     """Per-cycle reference counter + hypothesis filter.  `observed` = indices of STROBES that are compared."""
 
-    def __init__(self, table, observed=(0, 1, 2), t0_known=True, gated=False):
+    def __init__(self, table, observed=(0, 1, 2), t0_known=True, gated=False, lats=(0, 1)):
         self.table = table
         self.observed = observed
+        self.lats = lats                # admissible output latencies (see module docstring)
         self.gated = gated              # receiver-style output: tx_allowed is passed on only while `armed`
         self.armed = False              # armed by step(arm=1); disarmed by the first expected strobe
-        self.alive = [(L, alt) for L in (0, 1) for alt in (0, 1)]
+        self.alive = [(L, alt) for L in lats for alt in (0, 1)]
         self.first = {}                 # hypothesis -> first mismatch
         self.last_start = 0             # latest start sampled at a cycle < t
         self.rel_start = 0              # latest start sampled at a cycle <= t-2
@@ -195,9 +214,9 @@ class DualJudge:
     every cycle.  Any behaviour that the shadow cannot explain either is reported under its own mechanism name.
     """
 
-    def __init__(self, table, observed=(0, 1, 2), t0_known=True, gated=False):
-        self.p = Judge(table, observed, t0_known, gated)
-        self.s = Judge(ls_as_hs(table), observed, t0_known, gated)
+    def __init__(self, table, observed=(0, 1, 2), t0_known=True, gated=False, lats=(0, 1)):
+        self.p = Judge(table, observed, t0_known, gated, lats)
+        self.s = Judge(ls_as_hs(table), observed, t0_known, gated, lats)
 
     def invalidate(self, t):
         self.p.invalidate(t)
@@ -247,11 +266,11 @@ def case_timer(rng, tier, res):
         dut.add_interface(i)
     table = spec_table(clock, fs_only)
     budget = rng.randint(2500, 6000)
-    b = Bench(dut, domain="usb", freq=clock, max_cycles=budget + 2000)
+    b = Bench(dut, domain="usb", freq=clock, max_cycles=budget + 4000)
     b.watch(dut.speed)
     for i in ifs:
         b.watch(i.start, i.tx_allowed, i.tx_timeout, i.rx_timeout)
-    judge = DualJudge(table)
+    judge = DualJudge(table, lats=(0,))     # the start is observed directly: the offset is exactly N, no latency slack
     res.desc = {"kind": "timer", "config": cfg, "interfaces": n_if, "script": []}
     res.sig("timer", cfg, n_if)
     if n_if > 1:
@@ -356,6 +375,15 @@ def case_timer(rng, tier, res):
                 d = rng.randint(0, nrx + 10)
             else:
                 d = nrx + rng.randint(2, 40)
+            if rng.random() < 0.05:
+                # very long idle: 1-2x the next power of two above the longest timeout of this configuration, so that a
+                # counter that wraps instead of saturating shows its strobes again
+                longest = max(e_[2] for e_ in table.values())
+                p2 = 1
+                while p2 < longest + 2:
+                    p2 *= 2
+                d = rng.choice([1, 1, 2]) * p2 + rng.randint(0, longest + 5)
+                res.bin("wait_past_counter_range_%s" % cfg)
             if len(res.desc["script"]) < 5:
                 res.desc["script"].append({"speed": SPEEDNAME[speed], "hold": hold, "ifaces": who, "wait": d})
             res.sig(hold, tuple(who), d)
@@ -743,10 +771,25 @@ def case_device(rng, tier, res):
             m.d.comb += self.interface.timer.start.eq(self.start)
             return m
 
-    cfg = rng.choice(["12fs_fs", "60_fs", "60_ls"])
-    utmi = UTMIInterface()
-    dev = USBDevice(bus=utmi)
-    if cfg == "12fs_fs":
+    cfg = rng.choice(["12fs_fs", "60_fs", "60_ls", "ulpi_fs", "ulpi_ls"])
+    ulpi_path = cfg.startswith("ulpi")
+    if ulpi_path:
+        # the real constructor branch for a ULPI-shaped bus (hasattr(bus, "dir")): UTMITranslator in front of the device,
+        # always_fs / data_clock as USBDevice.__init__ sets them.  No PHY model: the bus stays idle, the shared timer is
+        # exercised through the test endpoint and the token detector's timer through its start at reset.
+        from amaranth.hdl.rec import Record
+        bus = Record([("data", [("i", 8), ("o", 8), ("oe", 1)]), ("clk", [("o", 1)]), ("nxt", [("i", 1)]),
+                      ("stp", [("o", 1)]), ("dir", [("i", 1)])])
+        dev = USBDevice(bus=bus, handle_clocking=False)
+        utmi = dev.utmi
+        clock, table = 60e6, spec_table(60e6, False)
+        speed = FS if cfg == "ulpi_fs" else LS
+    else:
+        utmi = UTMIInterface()
+        dev = USBDevice(bus=utmi)
+    if ulpi_path:
+        pass
+    elif cfg == "12fs_fs":
         clock, table, speed = 12e6, spec_table(12e6, True), FS
     else:
         # what the ULPI path of USBDevice.__init__ sets up: 60 MHz tables, all speeds
@@ -762,7 +805,8 @@ def case_device(rng, tier, res):
             ifc.rx_ready_for_response, ifc.speed, spy.start, utmi.rx_active, utmi.rx_valid, utmi.rx_data,
             ifc.tokenizer.new_token, ifc.rx_complete]
     b.watch(*sigs)
-    j_timer = DualJudge(table)                                   # shared device timer
+    # shared device timer; on the ULPI path every start comes from the test endpoint: exact offset, no latency slack
+    j_timer = DualJudge(table, lats=(0,) if ulpi_path else (0, 1))
     j_tok = DualJudge(table, observed=(0,))                      # token detector's private timer
     j_rx = DualJudge(table, observed=(0,), t0_known=False, gated=True)   # receiver's gated ready strobe
     res.desc = {"kind": "device", "config": cfg, "packets": []}
@@ -812,15 +856,41 @@ def case_device(rng, tier, res):
 
     def driver():
         # idle J for the selected speed (line_state: FS J = 01, LS J = 10), device connected
-        b.set(utmi.line_state, 0b10 if speed == LS else 0b01)
+        if not ulpi_path:
+            b.set(utmi.line_state, 0b10 if speed == LS else 0b01)
         b.set(dev.connect, 1)
-        if cfg == "60_fs":
+        if cfg in ("60_fs", "ulpi_fs"):
             b.set(dev.full_speed_only, 1)
-        elif cfg == "60_ls":
+        elif cfg in ("60_ls", "ulpi_ls"):
             b.set(dev.low_speed_only, 1)
+        nmin, alts, nrx = table[speed]
+        if ulpi_path:
+            # let the start-at-reset measurement of both timers run out, then restart the shared timer at adversarial
+            # distances (one before / at / after each strobe, back to back, long idle)
+            for _ in range(nrx + rng.randint(3, 30)):
+                yield
+            for _ in range(rng.randint(10, 25)):
+                b.set(spy.start, 1)
+                yield
+                b.set(spy.start, 0)
+                res.bin("device_spy_restart")
+                if b.get(ifc.speed) == speed:
+                    res.bin("device_%s" % cfg)      # counted only if the device really runs at the requested speed
+                r = rng.random()
+                if r < 0.5:
+                    d = max(0, rng.choice([nmin, alts[0], nrx]) + rng.choice([-1, 0, 1, 2]))
+                elif r < 0.7:
+                    d = rng.randint(0, 3)
+                else:
+                    d = nrx + rng.randint(2, 30)
+                res.sig("spy", d)
+                for _ in range(d):
+                    yield
+            for _ in range(nrx + 10):
+                yield
+            return
         for _ in range(rng.randint(4, 10)):
             yield
-        nmin, alts, nrx = table[speed]
         n = rng.randint(12, 30)
         for _ in range(n):
             if b.cycle > 30000:
@@ -880,7 +950,7 @@ def case_device(rng, tier, res):
     j_timer.verdict(res, "device_timer_", ctx)
     j_tok.verdict(res, "device_tokdet_", ctx)
     j_rx.verdict(res, "device_rxdata_", ctx)
-    res.nontrivial = st["ready"] >= 5
+    res.nontrivial = st["ready"] >= 5 or (ulpi_path and sum(j_timer.p.seen) >= 5)
 
 
 KINDS = [("timer", case_timer, 45), ("tokdet", case_tokdet, 20), ("rxdata", case_rxdata, 20), ("device", case_device, 15)]
